@@ -217,8 +217,14 @@ def run_real(case):
                 if rc.crashed:
                     v("C17", "local-cancel-crashed", rc.brief())
                 cancel_out[idx] = rc.out + rc.err
-                cancelled.add(idx)
-                labels.add("cancel")
+                if names[idx] in first:
+                    cancelled.add(idx)
+                    labels.add("cancel")
+                else:
+                    # the target has not been submitted yet (it belongs to the second wave): nothing to cancel
+                    labels.add("cancel-of-a-target-never-submitted")
+                    cancel_ns.pop(idx, None)
+                    cancel_before_ns.pop(idx, None)
             t_r2_ns = None
             if case["second_wave"]:
                 if case.get("wave_gap_ms"):
